@@ -30,7 +30,8 @@ theorem step_tryParse_cases (oc : Bool) (b : Buf) (ops : List RdOp) (sm : Bool) 
     (scriptPanics b ops = true ∧ (step oc b (.tryParse ops sm)).2 = { cls := .panic } ∧
       SomeReads b (step oc b (.tryParse ops sm)).1) ∨
     (scriptPanics b ops = false ∧ (step oc b (.tryParse ops sm)).2 = { cls := if sm then .some else .none } ∧
-      Reads b (step oc b (.tryParse ops sm)).1 (if sm then scriptConsumed (b.wi - b.ri) ops else 0)) := by
+      Reads b (step oc b (.tryParse ops sm)).1 (if sm then scriptConsumed (b.wi - b.ri) ops else 0) ∧
+      (sm = false → (step oc b (.tryParse ops sm)).1 = b)) := by
   have hp := scriptPanics_eq oc ops sm b h
   have hs := (tryParse_spec oc ops sm b h).2
   simp only [step]
@@ -45,7 +46,7 @@ theorem step_tryParse_cases (oc : Bool) (b : Buf) (ops : List RdOp) (sm : Bool) 
     right
     have := tryParse_value oc ops sm b b' r hx
     subst this
-    refine ⟨by rw [← hp]; rfl, ?_, hs⟩
+    refine ⟨by rw [← hp]; rfl, ?_, hs.1, hs.2⟩
     cases r <;> simp [outOf]
 
 end FBV
